@@ -172,6 +172,7 @@ class Walker:
                 if self._ev(v, pc):
                     return True
             return False
+        e2 = e
         if self._bind:
             # structural simplification through opaque bindings, e.g. (True, f(x))[0] -> True
             e2 = e
@@ -195,6 +196,9 @@ class Walker:
         if a is None and self._bind and isinstance(e, ast.Name) and e.id in self._bind:
             # a flag holding the result of a call: recognise the atom on what the flag stands for
             a = self.atom_of(self._bind[e.id])
+        if a is None and self._bind and e2 is not e:
+            # the condition with the opaque values it mentions spelled out (len(block) with block = rlp.decode(..))
+            a = self.atom_of(e2)
         if a is None:
             a = ("?" + norm(e), True)
         name, pol = a
